@@ -17,7 +17,7 @@ def run(ctx):
     ctx.clause = ("in the ABIXML reader and the tools' ABIXML read paths: results of nullable producers are checked "
                   "before use, constant subscripts on input-filled vectors are size-guarded, and no assertion / abort "
                   "depends on a value taken from the document without a dominating check")
-    ctx.rules = ["R-NULLABLE", "R-IDX", "R-INASSERT", "R-VFNCLASS"]
+    ctx.rules = ["R-NULLABLE", "R-IDX", "R-INASSERT", "R-VFNCLASS", "R-FILTERSYM"]
     with open(os.path.join(TABLES, "c33_tables.json")) as fh:
         T = json.load(fh)
     P = ctx.program(None)
@@ -45,6 +45,28 @@ def run(ctx):
     ctx.floor("R-INASSERT", "input-derived assertion atoms in the reader", ni, 20)
     from rules import vfn_rule
     vfn_rule.check(ctx, P)
+    check_filtersym(ctx, P)
     for fn, why in T["not_producers"].items():
         ctx.note("not in the nullable-producer table: %s - %s" % (fn, why))
     ctx.assume("general memory safety of the reader beyond these three fault classes is not decided")
+
+
+
+# A declaration read from ABIXML has a symbol only if its elf-symbol-id resolves; the reader silently leaves it without one
+# otherwise.  The category filters of abg-comp-filter.cc run on *every* diff node of a comparison, so they meet such
+# declarations: every dereference of a get_symbol() result there needs a non-null fact.
+FILTERSYM_EXCEPTIONS = {
+    "has_benign_infinite_array_change": "the dereferences are reached only for a var_diff whose first variable has a symbol and whose "
+                                        "second has none: top-level var_diffs pair exported variables (both have symbols: C17 R-EXPGATE / "
+                                        "R-PUBSYM), data-member var_diffs of non-static members return on the first test, and static "
+                                        "members are compared as top-level variables (tried with ELF and ABIXML inputs: not reachable)",
+}
+
+
+def check_filtersym(ctx, P):
+    funcs = [f for f in P.all_funcs() if not f.dep and f.relfile == "src/abg-comp-filter.cc" and f.n not in FILTERSYM_EXCEPTIONS]
+    n = nr.nullable_derefs(ctx, P, funcs, lambda d: d["n"] == "get_symbol" and any(
+        k_ in (d.get("cls") or "") for k_ in ("function_decl", "var_decl")), rule="R-FILTERSYM", per_var=True)
+    for fn, why in FILTERSYM_EXCEPTIONS.items():
+        ctx.note("R-FILTERSYM: %s is not decided: %s" % (fn, why))
+    ctx.floor("R-FILTERSYM", "dereferences of get_symbol() results in the category filters", n, 2)
